@@ -135,6 +135,8 @@ pub struct State {
     pub spawned: u64,
     /// fixed per episode: seeds choices of the environment the crate may look at
     episode_key: u64,
+    last_runner: usize,
+    same_runner_sync: u64,
     pub env_reads: u64,
 }
 
@@ -200,6 +202,8 @@ impl Sim {
                 tail_decisions: 0,
                 spawned: 0,
                 episode_key: crate::rng::mix(spec.seed, 0xE17_0E17),
+                last_runner: NOBODY,
+                same_runner_sync: 0,
                 env_reads: 0,
             }),
             cvs: (0..MAX_TASKS.max(n_tasks)).map(|_| Condvar::new()).collect(),
@@ -240,6 +244,11 @@ impl Sim {
             if st.stats.decisions != last {
                 last = st.stats.decisions;
                 since = std::time::Instant::now();
+                if last > 20_000_000 {
+                    // an episode that keeps deciding without ending (a livelock under the
+                    // simulated schedule) is treated like a hang: no verdict, the worker ends
+                    return false;
+                }
             } else if since.elapsed().as_secs() >= stall_secs {
                 return false;
             }
@@ -429,6 +438,27 @@ impl State {
         debug_assert!(!alive.is_empty());
         let stay = if must_leave { None } else { Some(id) };
         let n_dec = self.stats.decisions;
+        // An explicit yield or sleep means "let somebody else run": every policy honours it
+        // (a spin-wait with `yield_now` is correct under any fair scheduler, and would spin for
+        // ever under a policy that never leaves the running task).
+        // ... and so does a task that has passed thousands of sync points in a row while others
+        // are waiting (a spin on an atomic flag): no real scheduler starves the others for ever.
+        if site.starts_with("sync:") && stay == Some(self.last_runner) {
+            self.same_runner_sync += 1;
+        } else {
+            self.same_runner_sync = 0;
+        }
+        self.last_runner = id;
+        let spinning = self.same_runner_sync > 500;
+        if spinning {
+            self.same_runner_sync = 0;
+        }
+        if let (Some(me), true) = (stay, site == "sync:yield_now" || site == "sync:sleep" || spinning) {
+            let o = self.others(me, None);
+            if !o.is_empty() {
+                return o[self.rng.usize_below(o.len())];
+            }
+        }
         match self.policy.clone() {
             Policy::Sequential => stay.unwrap_or(alive[0]),
             Policy::RunToCompletion => stay.unwrap_or_else(|| alive[self.rng.usize_below(alive.len())]),
